@@ -383,6 +383,10 @@ func genStress(t *rapid.T) *Case {
 		if rapid.IntRange(0, 5).Draw(t, fmt.Sprintf("r%d.err", i)) == 0 {
 			r.Code, r.Msg = rapid.IntRange(1, 16).Draw(t, fmt.Sprintf("r%d.code", i)), "stress"
 		}
+		if rapid.IntRange(0, 3).Draw(t, fmt.Sprintf("r%d.creds", i)) == 0 {
+			// per-RPC credentials whose callback takes a while: the start of the call overlaps whatever else is going on
+			r.Creds = &Creds{MD: map[string]string{"tok": "v"}, SlowUs: rapid.IntRange(20, 600).Draw(t, fmt.Sprintf("r%d.credsus", i))}
+		}
 		c.RPCs = append(c.RPCs, r)
 	}
 	ne := rapid.IntRange(0, 4).Draw(t, "nevents")
